@@ -192,7 +192,7 @@ def verify(contract_cls, repo=None, timeout_ms=None):
             # vacuity guard: at least one path must be feasible under the precondition
             ob_cover = {"name": f"cover:{label}", "kind": "cover", "case": label,
                         "status": "unsat" if reached["n"] > 0 else "sat",
-                        "detail": f"{reached['n']} feasible paths", "time": 0.0, "path": ""}
+                        "detail": f"{reached['n']} feasible paths", "time": 0.0, "path": "", "backend": "path-count"}
             res.obligations.append(ob_cover)
         except Unsupported as e:
             res.status = "undecided"
@@ -204,7 +204,7 @@ def verify(contract_cls, repo=None, timeout_ms=None):
             res.reason = f"[{label}] {type(e).__name__}: {e}\n{traceback.format_exc()[-1500:]}"
         for key, ob in ctx.obligs.items():
             res.obligations.append({"name": ob.name, "kind": ob.kind, "case": label, "status": ob.status,
-                                    "detail": ob.detail[:2000], "time": round(ob.time, 3),
+                                    "detail": ob.detail[:2000], "time": round(ob.time, 3), "backend": ob.backend,
                                     "path": "".join("1" if d else "0" for fr in key[1] for d in fr)})
         res.solver_time += ctx.solver_time
         res.used_models = sorted(set(res.used_models) | ctx.used_models)
